@@ -40,7 +40,7 @@ import asynq
 import qcore
 import typeshed_client
 from qcore.testing import Anything
-from typing_extensions import Protocol, get_args, get_origin
+from typing_extensions import Protocol, Unpack, get_args, get_origin
 
 from . import attributes, format_strings, importer, node_visitor, type_evaluation
 from .analysis_lib import get_attribute_path
@@ -2509,9 +2509,19 @@ class NameCheckVisitor(node_visitor.ReplacingNodeVisitor):
 
     def _visit_annotation(self, node: ast.AST) -> Value:
         with qcore.override(self, "in_annotation", True):
-            val = self.visit(node)
+            val = self._unpack_starred_annotation(self.visit(node))
             self.check_for_missing_generic_params(node, val)
             return val
+
+    def _unpack_starred_annotation(self, val: Value) -> Value:
+        """In an annotation, *tuple[int, ...] is another way to write
+        Unpack[tuple[int, ...]]."""
+        if isinstance(val, _StarredValue) and isinstance(val.value, KnownValue):
+            try:
+                return KnownValue(Unpack[val.value.val])
+            except Exception:
+                pass
+        return val
 
     def check_for_missing_generic_params(self, node: ast.AST, value: Value) -> None:
         if not isinstance(value, KnownValue):
@@ -3359,7 +3369,7 @@ class NameCheckVisitor(node_visitor.ReplacingNodeVisitor):
         if typ is tuple and self.in_annotation:
             elts = []
             for elt in node.elts:
-                val = self.visit(elt)
+                val = self._unpack_starred_annotation(self.visit(elt))
                 self.check_for_missing_generic_params(elt, val)
                 elts.append(val)
         else:
